@@ -57,6 +57,76 @@ CHECKS = {
              "whole holding) is matched on its exact signature only. MCP leg of the no-partial-output clause is "
              "observed by C20's history checker.",
         ref="DESIGN.md §3 C05, §4 F2/F3"),
+    "C04": dict(
+        technique="runtime monitor: arithmetic identities evaluated on every produced report (library boundary, "
+                  "full precision) against the input ledger and a generated exemption configuration; CLI runs with "
+                  "generated override files",
+        text="Every identity of the statement (gross = sum q*p, net = gross - fees, quantity = sum legs, sum leg gains = "
+             "net - costs, per-disposal netting into total gain/loss, disposal count, dividend totals by tax year, "
+             "exemption = configured amount, unconfigured year = error, taxable = max(0, net - exemption)) is recomputed "
+             "in exact rationals from the input lines and compared with the report for ~12k ledgers x generated "
+             "exemption maps x optional year filter, plus real cgt-tool runs with ./config.toml and ~/.config overrides.",
+        note="Two override files never disagree on a year (their precedence is not part of the property). FX class uses "
+             "the independent rate-table model.",
+        ref="DESIGN.md §3 C04"),
+    "C06": dict(
+        technique="runtime monitor: metamorphic tool-vs-tool comparison (permuted lines, fill-split trades) at the "
+                  "library boundary and file-partitioned inputs through the real CLI",
+        text="Each base ledger is re-run under 6 line permutations and 2 fill-splittings (same total quantity, "
+             "consideration and fees; adjacent or separated fills) and the reports compared leg by leg; the real CLI "
+             "is run on 1-5 files (LF/CRLF, with/without final newline, contiguous or arbitrarily distributed) against "
+             "the concatenation. Accept/reject must agree.",
+        note="Open finding F16 (per-sell-line legs when same-day SELL lines are not consecutive; pinned by "
+             "tests/plain/SyntheticComplex.txt) is matched by its exact signature: merged legs, costs, totals and "
+             "holdings must still agree. Split-and-trade-on-one-date ledgers are not generated (convention not fixed "
+             "by any property; see DESIGN.md F15).",
+        ref="DESIGN.md §3 C06, §4 F4/F16"),
+    "C07": dict(
+        technique="runtime monitor with exhaustive sub-spaces: TaxPeriod::from_date observed on every date "
+                  "1900-04-06..2101-04-05; year-filtered reports compared bit-exactly with the all-years report",
+        text="All 73,414 dates (plus 800 rejected neighbours) are pushed through the real from_date; for every Y in "
+             "1900..2100 a ledger selling on 5/6 April and a random day is checked in all-years mode and under filters "
+             "Y-1, Y, Y+1; random multi-year ledgers are checked under every in-range filter (incl. years without "
+             "disposals): a year report must equal that year's slice (Decimal ==) and holdings the full history.",
+        note="MCP explain_matching's own year derivation is exercised by C20's history checker on boundary-day disposals.",
+        ref="DESIGN.md §3 C07"),
+    "C09": dict(
+        technique="runtime monitor: metamorphic projection (whole ledger vs each security alone) compared exactly; "
+                  "mixed-case tickers through the DSL and JSON input paths",
+        text="Ledgers over 2-6 securities colliding on dates are compared with the reports of each security's "
+             "transactions alone: disposals, legs and holdings bit-identical, year totals additive, acceptance = "
+             "conjunction. Mixed-case ticker spellings through parse_file and the JSON deserialiser must give the same report.",
+        note="F16 regrouping (another security's line between two same-day SELL lines) is matched as the known finding; "
+             "merged legs must still agree.",
+        ref="DESIGN.md §3 C09"),
+    "C10": dict(
+        technique="runtime monitor: metamorphic twins (ledger rewritten in post-split units; cancelling SPLIT/UNSPLIT pair)",
+        text="Ledgers with splits/unsplits anywhere relative to sales, 30-day windows and capital events are compared "
+             "with their twin in post-split units (exact class: ratios with terminating reciprocals, 1e-9; rounded "
+             "class: any ratio, twin rounded at 18 dp, 1e-7 relative): gains, proceeds, costs, closing cost equal, "
+             "quantities scaled; a SPLIT r/UNSPLIT r pair at an idle date changes nothing.",
+        note="Accept/reject differences caused by ~1e-27-share residue after a non-terminating ratio are the known "
+             "finding F3b; dust artefacts of the rounded twin itself are skipped and counted.",
+        ref="DESIGN.md §3 C10"),
+    "C11": dict(
+        technique="runtime monitor: with/without metamorphic pairs and sign/size oracles on observed reports",
+        text="One extra CAPRETURN/ACCUMULATION at an idle date must move sum(leg costs)+closing cost of that security "
+             "by exactly +-net when shares are held and by 0 when none are, never touch another security or a leg "
+             "identified with a later acquisition; equal ACCUMULATION+CAPRETURN cancel; a DIVIDEND changes dividend "
+             "totals only; no leg/holding cost is negative; a return above the expenditure left (read from the tool's "
+             "own prefix report) must be refused citing S122, one below it accepted.",
+        note="The F6 family (adjustments attached to whole lots by share count; s122 test sized by a pre-pass that "
+             "ignores 30-day identification and pool averaging) is recorded as open findings under narrow signatures; "
+             "the never-sold class keeps the s122 test itself observable.",
+        ref="DESIGN.md §3 C11, §4 F6"),
+    "C12": dict(
+        technique="runtime monitor: metamorphic prefix/extension comparison, bit-exact",
+        text="Accepted prefix ledgers are extended by well-formed continuations starting 31 (boundary), 32, 35, 60 or "
+             "400 days after the prefix's last date (some failing by themselves); every prefix disposal must reappear "
+             "bit-identical, every tax year closed before the suffix must keep its whole summary, and a rejection must "
+             "name a date in the suffix period.",
+        note="Continuations contain no CAPRETURN/ACCUMULATION (excluded by the property).",
+        ref="DESIGN.md §3 C12"),
 }
 
 NOT_YET = {}
